@@ -780,6 +780,8 @@ def series_share_nothing(tier, seed):
             ax_ = snap(x)
             if ax_ != bx:
                 d0, d1 = dict(bx[1]), dict(ax_[1])
+                if 'time' not in d0:
+                    d1.pop('time', None)     # the lazily created axis (a cache filled by copy()); its content is checked below
                 changed += ['operand.' + k for k in sorted(set(d0) | set(d1)) if d0.get(k) != d1.get(k)]
             if snap(a) != ba:
                 changed.append('array-operand')
@@ -876,12 +878,24 @@ def oracle(rng, tier, seed, focus, cases=None):
         f = judge_case(c)
         if f:
             fails.append(f)
-    f2, stats = sweep(tier, seed)
+    def guarded(name, fn, default):
+        # an experiment dying inside the library is a finding about the library, not a harness crash
+        try:
+            return fn()
+        except Exception as e:  # noqa
+            import traceback
+            tb = traceback.extract_tb(e.__traceback__)
+            where = next((f for f in reversed(tb) if '/nitime/' in f.filename), tb[-1])
+            fails.append(Failure('experiment/%s/raises-%s' % (name, err_kind(e)),
+                                 'the %s experiment died inside the library: %r at %s:%s' % (name, e, where.filename.split('/')[-1], where.name),
+                                 {'what': 'copies' if name != 'sweep' else 'sweep'}))
+            return default
+    f2, stats = guarded('sweep', lambda: sweep(tier, seed), ([], {}))
     fails += f2
-    fails += copies(tier, seed)
-    fails += axis_copy_forms(tier, seed)
-    fails += series_share_nothing(tier, seed)
-    f3, n3 = unmodelled_operands(tier, seed)
+    fails += guarded('copies', lambda: copies(tier, seed), [])
+    fails += guarded('axis-copy-forms', lambda: axis_copy_forms(tier, seed), [])
+    fails += guarded('series-share-nothing', lambda: series_share_nothing(tier, seed), [])
+    f3, n3 = guarded('operands', lambda: unmodelled_operands(tier, seed), ([], 0))
     fails += f3
     stats['unmodelled_operand_calls'] = n3
     for f in fails:
@@ -893,6 +907,9 @@ def oracle(rng, tier, seed, focus, cases=None):
 def replay(d):
     import common
     known = common.load_findings(PID)
+    if str(d.get('key', '')).startswith('experiment/'):
+        fs, _ = oracle(None, 'quick', 0, [], [])
+        return next((f for f in fs if f.key == d['key']), None)
     if d.get('what') == 'sweep':
         fs, _ = sweep('thorough', 0)
     elif d.get('what') == 'copies':
